@@ -98,6 +98,9 @@ class Prop(SeqProp):
             itpos = {}    # proc -> position of its own `for line in f` iteration (line files only)
             iter_ops = []
             noops = {}
+            # an iteration (`it = iter(f)`) that was started before a fork is continued by the parent and by the child, each from
+            # where it stood at the fork; the file is larger than the handle's buffer then
+            inherit = variant != "MapAccessFile" and rng.random() < 0.3
             for _ in range(rng.randint(4, 30)):
                 r = rng.random()
                 idle = [p for p in range(nprocs) if p not in paused]
@@ -106,7 +109,10 @@ class Prop(SeqProp):
                     # also as a forked child's very first call on the inherited object
                     noops.setdefault(str(len(ops)), []).append([rng.choice(idle), rng.choice([0, 0, 1, 2])])
                 if r < 0.15 and nprocs < 6 and idle:
-                    ops.append(f"fork {rng.choice(idle)}"); nprocs += 1
+                    par = rng.choice(idle)
+                    ops.append(f"fork {par}"); nprocs += 1
+                    if inherit and par in itpos:
+                        itpos[nprocs - 1] = itpos[par]  # the child goes on with the iteration its parent had started
                     if rng.random() < 0.3:
                         noops.setdefault(str(len(ops)), []).append([nprocs - 1, 0])
                 elif r < 0.25 and idle and variant != "MapAccessFile" and any(itpos.get(p, 0) < NLINES for p in idle):
@@ -128,7 +134,10 @@ class Prop(SeqProp):
                         ops.append(f"read {p}"); last[p] += 1
             for p in sorted(paused):
                 ops.append(f"read {p}")
-            yield Case(ops, {"variant": variant, "iter_ops": iter_ops, "noops": noops})
+            meta = {"variant": variant, "iter_ops": iter_ops, "noops": noops}
+            if inherit:
+                meta["inherit_iter"] = True
+            yield Case(ops, meta)
 
     def run_impl(self, case):
         if self.scratch is None:
@@ -138,6 +147,8 @@ class Prop(SeqProp):
         # (MapAccessFile reads through universal newlines in a single process too: its file has no carriage returns)
         sfx = ["", " \u00e9", "", " \u00e9\u6f22"] if case.meta["variant"] == "MapAccessFile" else ["", "\r", "\rx", " \u00e9\u6f22"]
         lines = [f"L{i}" + sfx[i % 4] for i in range(NLINES)]
+        if case.meta.get("inherit_iter"):
+            lines = [f"L{i} " + "xyz\u00e9"[i % 4] * (1500 + 37 * i) + sfx[i % 4] for i in range(NLINES)]  # about 20 KiB
         with open(path, "wb") as fh:
             fh.write("".join(l + "\n" for l in lines).encode("utf-8"))
         form = len(case.ops) % 4 if len(case.ops) > 4 else 0
@@ -160,6 +171,7 @@ class Prop(SeqProp):
                 # (os.path.relpath of the whole path would collapse `current/..` textually)
                 path = os.path.join(os.path.relpath(link, os.getcwd()), "..", "forkfile.txt")
         tree = ForkTree(case.meta["variant"], path, lines)
+        tree.keep_iter = bool(case.meta.get("inherit_iter"))
         iter_ops = set(case.meta.get("iter_ops", []))
         out = []
         paused = set()
